@@ -13,7 +13,7 @@
 //   tamper <key> <valhex>
 //   restart client=<n> recreate=<0|1>
 //   reset
-//   build <key> mode=<sync|idle|mixed|threads> choices=<c,c,..|-> cancel=<none|loop:K|cb:N:P|wait:K> probe=<none|cb:N> nthreads=<n>
+//   build <key> mode=<sync|idle|mixed|threads> choices=<c,c,..|-> cancel=<none|loop:K|cb:N:P|wait:K|thread:USEC> probe=<none|cb:N> nthreads=<n>
 //   dbexec <sqlhex>
 //   dbwrite <byteshex>
 //   dbdump
@@ -731,6 +731,15 @@ void Sim::doBuild(const std::string& key, const std::vector<std::string>& toks) 
   }
   if (ctl.mode == "threads") pool.start(ctl.nthreads);
   inBuild = true;
+  std::thread canceller;
+  if (ctl.cancelKind == "thread") {
+    int usec = ctl.cancelAt;
+    canceller = std::thread([this, usec] {
+      std::this_thread::sleep_for(std::chrono::microseconds(usec));
+      OUT("cancel-issued racing-thread");
+      if (engine) engine->cancelBuild();
+    });
+  }
   std::string result;
   if (engine) {
     const ValueType& v = engine->build(KeyType(key));
@@ -741,6 +750,7 @@ void Sim::doBuild(const std::string& key, const std::vector<std::string>& toks) 
     llb_buildengine_build(cengine, &k, &r);
     result.assign((const char*)r.data, r.length);
   }
+  if (canceller.joinable()) canceller.join();
   inBuild = false;
   if (ctl.mode == "threads") pool.finish();
   OUT("build-end " << n << " result=" << hex(result) << " cancelled="
